@@ -93,6 +93,25 @@ def ecsPackable (family mask : Nat) (addr : Bytes) : Bool :=
   else if family = 2 then decide (mask ≤ 128) && addr.length == 16
   else family == 0 && mask == 0
 
+/-! ### the POST body as a stream: `ioutil.ReadAll(&io.LimitedReader{R: req.Body, N: maxPostMsgLength})`
+
+  `req.Body.Read` may return the body in pieces of any size (chunked bodies, network segmentation, empty reads with a
+  nil error, the last piece together with io.EOF); `chunks` is the sequence of pieces it returns.  LimitedReader
+  shortens the buffer it passes down to the N bytes still allowed and answers io.EOF once N = 0; ReadAll appends
+  every piece until io.EOF. -/
+def readLimited : List Bytes → Nat → Bytes
+  | [], _ => []
+  | c :: rest, n => if n = 0 then [] else c.take n ++ readLimited rest (n - c.length)
+
+/-- `unpackInput` for a streamed body -/
+def unpackInputC (method : String) (dnsVals : Option (List Bytes)) (chunks : List Bytes) : Option Bytes :=
+  if method = "GET" then
+    match dnsVals with
+    | some [v] => b64decode v
+    | _ => none
+  else if method = "POST" then some (readLimited chunks maxPost)
+  else none
+
 def familyOf (cip : Bytes) : Nat × Nat :=
   if (to4 cip).isNone && (to16 cip).isSome then (2, 128) else (1, 32)
 
@@ -126,6 +145,11 @@ deriving DecidableEq, Repr
 /-- `DnsMsgToResponse` for a reply that packs to `packedLen` bytes (a reply that does not pack is an error) -/
 def dnsMsgToResponse (answerTTLs : List Nat) (packedLen : Option Nat) : Option HttpResp :=
   packedLen.map fun n => ⟨200, "application/dns-message", getTTL answerTTLs, n⟩
+
+/-- `RequestToDnsMsg` with the body delivered in the pieces `chunks` -/
+def requestToDnsMsgC (unpack : Bytes → Option Msg) (method : String) (dnsVals : Option (List Bytes))
+    (chunks : List Bytes) (ra ca : Option Bytes) : Option Msg :=
+  ((unpackInputC method dnsVals chunks).bind unpack).map (setClientSubnet ra ca)
 
 /-- the code before the C56 family fix: `if cip.To16() != nil` -/
 def familyOfOld (cip : Bytes) : Nat × Nat := if (to16 cip).isSome then (2, 128) else (1, 32)
